@@ -1,4 +1,764 @@
-//! C16 monitor (not written yet).
-use crate::ctx::Ctx;
+//! C16 — principal text form is a checksummed bijection on 0..29-byte ids.
+//!
+//! Oracle R6 (`model::misc`): bitwise CRC-32, RFC 4648 base32, grouping, and the strict inverse.
+//! Nothing here asks `ic_principal` to judge itself: every verdict compares its answer with R6.
+use crate::ctx::{catch, hex, Ctx};
+use crate::model::leb::leb_u64;
+use crate::model::misc::{base32, crc32, principal_parse_strict, principal_text};
+use crate::rng::{hash_bytes, hash_str, Rng};
+use candid::types::value::IDLValue;
+use candid::{Decode, Encode, IDLArgs, Principal};
+use serde_json::json;
+use std::convert::TryFrom;
+use std::str::FromStr;
 
-pub fn run(_ctx: &mut Ctx) {}
+/// Characters used for substitutions / insertions: the base32 alphabet, its upper case, the digits
+/// and symbols just outside it, separators, and non-ASCII characters whose Unicode case mapping
+/// lands inside the alphabet (Kelvin sign, long s, dotless i, full-width a).
+const EDIT_CHARS: &[char] = &[
+    'a', 'b', 'c', 'd', 'e', 'f', 'g', 'h', 'i', 'j', 'k', 'l', 'm', 'n', 'o', 'p', 'q', 'r', 's', 't', 'u', 'v', 'w',
+    'x', 'y', 'z', '2', '3', '4', '5', '6', '7', 'A', 'K', 'Q', 'Z', '0', '1', '8', '9', '=', '_', ' ', '-', '\n',
+    '\t', '.', '+', '/', '\u{0}', '\u{7f}', '\u{212a}', '\u{17f}', '\u{131}', '\u{ff41}', '\u{e9}', '\u{ad}',
+    '\u{200b}', '\u{feff}',
+];
+
+fn char_class(c: char) -> &'static str {
+    match c {
+        'a'..='z' | '2'..='7' => "alphabet",
+        'A'..='Z' => "upper",
+        '0' | '1' | '8' | '9' => "digit-outside",
+        '-' => "dash",
+        '=' => "pad",
+        ' ' | '\n' | '\t' => "space",
+        c if !c.is_ascii() => "non-ascii",
+        _ => "symbol",
+    }
+}
+
+fn gen_bytes(rng: &mut Rng, max: usize) -> Vec<u8> {
+    let n = match rng.below(10) {
+        0 => 0,
+        1 => 1,
+        2 => 29,
+        3 => 28,
+        4 => *rng.pick(&[3usize, 4, 5, 6, 7, 8, 9, 10]),
+        _ => rng.usize(max.min(29) + 1),
+    };
+    match rng.below(6) {
+        0 => vec![0u8; n],
+        1 => vec![0xffu8; n],
+        _ => rng.bytes(n),
+    }
+}
+
+/// Everything the property says about a byte string of legal length. Returns the principal.
+fn check_legal_bytes(ctx: &mut Ctx, b: &[u8], origin: &str) -> Option<Principal> {
+    let input = || json!({"bytes": hex(b), "origin": origin});
+    let want = principal_text(b);
+    // constructors
+    let p = match catch(|| Principal::try_from_slice(b)) {
+        Err(pi) => {
+            ctx.violation(&format!("panic|try_from_slice|{}", pi.sig()), &pi.message, input());
+            return None;
+        }
+        Ok(Err(e)) => {
+            ctx.violation(
+                "constructor-rejects-legal|try_from_slice",
+                &format!("{} bytes must be accepted, got {e}", b.len()),
+                input(),
+            );
+            return None;
+        }
+        Ok(Ok(p)) => p,
+    };
+    if p.as_slice() != b {
+        ctx.violation(
+            "constructor-changes-bytes|try_from_slice",
+            &format!("as_slice() = {} for input {}", hex(p.as_slice()), hex(b)),
+            input(),
+        );
+        return None;
+    }
+    match catch(|| Principal::from_slice(b)) {
+        Ok(q) if q == p && q.as_slice() == b => {}
+        Ok(q) => ctx.violation(
+            "constructor-changes-bytes|from_slice",
+            &format!("from_slice gives {}", hex(q.as_slice())),
+            input(),
+        ),
+        Err(pi) => ctx.violation(
+            "constructor-rejects-legal|from_slice",
+            &format!("from_slice panicked on {} bytes: {}", b.len(), pi.message),
+            input(),
+        ),
+    }
+    let others: [(&str, Result<Principal, candid::types::principal::PrincipalError>); 3] = [
+        ("TryFrom<&[u8]>", Principal::try_from(b)),
+        ("TryFrom<Vec<u8>>", Principal::try_from(b.to_vec())),
+        ("TryFrom<&Vec<u8>>", Principal::try_from(&b.to_vec())),
+    ];
+    for (name, r) in others {
+        match r {
+            Ok(q) if q == p && q.as_slice() == b => {}
+            Ok(q) => ctx.violation(
+                &format!("constructor-changes-bytes|{name}"),
+                &format!("{name} gives {}", hex(q.as_slice())),
+                input(),
+            ),
+            Err(e) => ctx.violation(
+                &format!("constructor-rejects-legal|{name}"),
+                &format!("{} bytes must be accepted, got {e}", b.len()),
+                input(),
+            ),
+        }
+    }
+    if p.len() as usize != b.len() || p.as_ref() != b || p.as_fixed_bytes()[b.len()..].iter().any(|x| *x != 0) {
+        ctx.violation("accessor-mismatch", "len()/as_ref()/as_fixed_bytes() disagree with the input", input());
+    }
+    // printer
+    let got = match catch(|| (p.to_text(), format!("{p}"))) {
+        Ok(x) => x,
+        Err(pi) => {
+            ctx.violation(&format!("panic|to_text|{}", pi.sig()), &pi.message, input());
+            return None;
+        }
+    };
+    if got.0 != want || got.1 != want {
+        ctx.violation(
+            &format!("to_text-mismatch|len%5={}", b.len() % 5),
+            &format!("reference text {want:?}, to_text {:?}, Display {:?}", got.0, got.1),
+            input(),
+        );
+        return Some(p);
+    }
+    // parser on the canonical text
+    let back: [(&str, Result<Principal, _>); 3] = [
+        ("from_text", Principal::from_text(&want)),
+        ("FromStr", Principal::from_str(&want)),
+        ("TryFrom<&str>", Principal::try_from(want.as_str())),
+    ];
+    for (name, r) in back {
+        match r {
+            Ok(q) if q == p => {}
+            Ok(q) => ctx.violation(
+                &format!("text-roundtrip-mismatch|{name}"),
+                &format!("{want:?} parses to {} instead of {}", hex(q.as_slice()), hex(b)),
+                input(),
+            ),
+            Err(e) => ctx.violation(
+                &format!("text-roundtrip-rejected|{name}"),
+                &format!("canonical text {want:?} rejected: {e}"),
+                input(),
+            ),
+        }
+    }
+    ctx.count("cover:bytes:legal");
+    ctx.count(&format!("cover:len%5={}", b.len() % 5));
+    Some(p)
+}
+
+fn check_overlong_bytes(ctx: &mut Ctx, b: &[u8]) {
+    let input = || json!({"bytes": hex(b), "len": b.len()});
+    let rs: [(&str, bool); 4] = [
+        ("try_from_slice", Principal::try_from_slice(b).is_ok()),
+        ("TryFrom<&[u8]>", Principal::try_from(b).is_ok()),
+        ("TryFrom<Vec<u8>>", Principal::try_from(b.to_vec()).is_ok()),
+        ("TryFrom<&Vec<u8>>", Principal::try_from(&b.to_vec()).is_ok()),
+    ];
+    for (name, ok) in rs {
+        if ok {
+            ctx.violation(
+                &format!("constructor-accepts-overlong|{name}"),
+                &format!("{name} accepted {} bytes", b.len()),
+                input(),
+            );
+        }
+    }
+    // documented panic = rejection
+    if let Ok(p) = catch(|| Principal::from_slice(b)) {
+        ctx.violation(
+            "constructor-accepts-overlong|from_slice",
+            &format!("from_slice returned {} for {} bytes", hex(p.as_slice()), b.len()),
+            input(),
+        );
+    }
+    ctx.count("cover:bytes:overlong");
+}
+
+/// `from_text(s)` is `Ok(p)` iff the reference strict parser returns `p`'s bytes.
+fn check_text(ctx: &mut Ctx, s: &str, class: &str) {
+    let input = || json!({"text": s, "class": class});
+    let want = principal_parse_strict(s);
+    let got = match catch(|| Principal::from_text(s)) {
+        Ok(r) => r,
+        Err(pi) => {
+            ctx.violation(&format!("panic|from_text|{}|{class}", pi.sig()), &pi.message, input());
+            return;
+        }
+    };
+    match (&want, &got) {
+        (Some(b), Ok(p)) if p.as_slice() == &b[..] => ctx.count("agree:text-accepted"),
+        (Some(b), Ok(p)) => ctx.violation(
+            &format!("from_text-wrong-principal|{class}"),
+            &format!("reference {} but from_text gives {}", hex(b), hex(p.as_slice())),
+            input(),
+        ),
+        (None, Ok(p)) => ctx.violation(
+            &format!("from_text-accepts-noncanonical|{class}"),
+            &format!(
+                "{s:?} is not (up to ASCII case) the canonical text {:?} of {} but is accepted",
+                principal_text(p.as_slice()),
+                hex(p.as_slice())
+            ),
+            input(),
+        ),
+        (Some(b), Err(e)) => ctx.violation(
+            &format!("from_text-rejects-canonical|{class}"),
+            &format!("{s:?} is the canonical text of {} up to case but is rejected: {e}", hex(b)),
+            input(),
+        ),
+        (None, Err(_)) => ctx.count("agree:text-rejected"),
+    }
+    // the other spellings of the same entry point
+    let same = |r: &Result<Principal, candid::types::principal::PrincipalError>| match (r, &got) {
+        (Ok(a), Ok(b)) => a == b,
+        (Err(_), Err(_)) => true,
+        _ => false,
+    };
+    match catch(|| (Principal::from_str(s), Principal::try_from(s))) {
+        Ok((a, b)) => {
+            if !same(&a) || !same(&b) {
+                ctx.violation(
+                    &format!("fromstr-differs-from-from_text|{class}"),
+                    &format!("from_text {got:?}, FromStr {a:?}, TryFrom<&str> {b:?}"),
+                    input(),
+                );
+            }
+        }
+        Err(pi) => ctx.violation(&format!("panic|FromStr|{}|{class}", pi.sig()), &pi.message, input()),
+    }
+    ctx.count(&format!("cover:text:{class}"));
+    ctx.nontrivial(hash_str(s));
+}
+
+fn insert_dashes(s: &str) -> String {
+    let mut out = String::new();
+    for (i, c) in s.chars().enumerate() {
+        if i > 0 && i % 5 == 0 {
+            out.push('-');
+        }
+        out.push(c);
+    }
+    out
+}
+
+/// Reference-built text of `crc || bytes` for any length (also > 29, where it must be rejected).
+fn text_of(bytes: &[u8], crc: u32) -> String {
+    let mut data = crc.to_be_bytes().to_vec();
+    data.extend_from_slice(bytes);
+    insert_dashes(&base32(&data))
+}
+
+fn exhaustive_chunk(ctx: &mut Ctx, chunk: u64) -> u64 {
+    let mut n = 0;
+    let mut one = |ctx: &mut Ctx, b: &[u8]| {
+        if let Some(_p) = check_legal_bytes(ctx, b, "exhaustive") {
+            let t = principal_text(b);
+            check_text(ctx, &t.to_ascii_uppercase(), "exhaustive-upper");
+            // drop the last character / flip the last character: must be rejected or be another canonical text
+            let mut cut = t.clone();
+            cut.pop();
+            check_text(ctx, &cut, "exhaustive-truncated");
+        }
+        n += 1;
+    };
+    if chunk == 0 {
+        one(ctx, &[]);
+        for a in 0..=255u8 {
+            one(ctx, &[a]);
+        }
+    } else {
+        let a = (chunk - 1) as u8;
+        for b in 0..=255u8 {
+            one(ctx, &[a, b]);
+        }
+    }
+    n
+}
+
+fn bytes_family(ctx: &mut Ctx, rng: &mut Rng, done: &mut u64) {
+    let local = ctx.case & ((1u64 << 40) - 1);
+    if local <= 256 {
+        *done += exhaustive_chunk(ctx, local);
+        // last chunk of this shard?
+        // largest chunk index <= 256 congruent to this shard
+        let last = if ctx.shard > 256 {
+            u64::MAX
+        } else {
+            256 - (256 - ctx.shard) % ctx.nshards
+        };
+        if local == last && ctx.only.is_none() {
+            let total = 1 + 256 + 65536;
+            ctx.stats.exhaustive.push(format!(
+                "principal byte strings of length <= 2: shard {}/{} checked {} of {} strings (chunks i = shard mod nshards, i in 0..=256)",
+                ctx.shard, ctx.nshards, *done, total
+            ));
+        }
+        return;
+    }
+    // random byte strings 0..=40
+    let n = match rng.below(8) {
+        0 => 29,
+        1 => 30,
+        2 => rng.range(30, 40) as usize,
+        3 => rng.range(31, 300) as usize,
+        _ => rng.usize(30),
+    };
+    let b = match rng.below(5) {
+        0 => vec![0u8; n],
+        1 => vec![0xff; n],
+        _ => rng.bytes(n),
+    };
+    if n <= 29 {
+        check_legal_bytes(ctx, &b, "random");
+    } else {
+        check_overlong_bytes(ctx, &b);
+        // canonical-looking text of an over-long payload
+        let t = text_of(&b, crc32(&b));
+        check_text(ctx, &t, "overlong-payload");
+    }
+    ctx.nontrivial(hash_bytes(&b));
+    ctx.sample(|| json!({"bytes": hex(&b)}));
+}
+
+fn edits_family(ctx: &mut Ctx, rng: &mut Rng) {
+    let b = gen_bytes(rng, 29);
+    let t = principal_text(&b);
+    let cs: Vec<char> = t.chars().collect();
+    // all substitutions and insertions at one position, and the deletion there
+    let pos = rng.usize(cs.len() + 1);
+    let mut buf = String::with_capacity(t.len() + 4);
+    for &c in EDIT_CHARS {
+        if pos < cs.len() {
+            buf.clear();
+            buf.extend(cs[..pos].iter());
+            buf.push(c);
+            buf.extend(cs[pos + 1..].iter());
+            let class = if c == cs[pos] {
+                "identity".to_string()
+            } else {
+                format!("substitute:{}", char_class(c))
+            };
+            check_text(ctx, &buf, &class);
+        }
+        buf.clear();
+        buf.extend(cs[..pos].iter());
+        buf.push(c);
+        buf.extend(cs[pos..].iter());
+        check_text(ctx, &buf, &format!("insert:{}", char_class(c)));
+    }
+    if pos < cs.len() {
+        buf.clear();
+        buf.extend(cs[..pos].iter());
+        buf.extend(cs[pos + 1..].iter());
+        check_text(ctx, &buf, if cs[pos] == '-' { "delete:dash" } else { "delete:alphabet" });
+        // transpose with the neighbour
+        if pos + 1 < cs.len() && cs[pos] != cs[pos + 1] {
+            let mut v = cs.clone();
+            v.swap(pos, pos + 1);
+            let s: String = v.into_iter().collect();
+            check_text(ctx, &s, "transpose");
+        }
+    }
+    ctx.sample(|| json!({"bytes": hex(&b), "text": t, "edit_position": pos}));
+}
+
+fn spelling_family(ctx: &mut Ctx, rng: &mut Rng) {
+    let b = gen_bytes(rng, 29);
+    let t = principal_text(&b);
+    let raw: String = t.chars().filter(|c| *c != '-').collect();
+    match rng.below(16) {
+        0 => check_text(ctx, &t.to_ascii_uppercase(), "case:upper"),
+        1 => {
+            let s: String = t
+                .chars()
+                .map(|c| if rng.bool() { c.to_ascii_uppercase() } else { c })
+                .collect();
+            check_text(ctx, &s, "case:mixed");
+        }
+        2 => check_text(ctx, &raw, "dash:all-removed"),
+        3 => {
+            // one dash moved by one position
+            let mut v: Vec<char> = t.chars().collect();
+            let ds: Vec<usize> = v.iter().enumerate().filter(|(_, c)| **c == '-').map(|(i, _)| i).collect();
+            if let Some(&d) = ds.get(rng.usize(ds.len().max(1))) {
+                let to = if rng.bool() && d + 1 < v.len() { d + 1 } else { d - 1 };
+                v.swap(d, to);
+                let s: String = v.into_iter().collect();
+                check_text(ctx, &s, "dash:moved");
+            } else {
+                check_text(ctx, &format!("{t}-"), "dash:trailing");
+            }
+        }
+        4 => check_text(ctx, &t.replacen('-', "--", 1), "dash:doubled"),
+        5 => check_text(ctx, &format!("-{t}"), "dash:leading"),
+        6 => check_text(ctx, &format!("{t}-"), "dash:trailing"),
+        7 => {
+            // regroup in groups of k != 5
+            let k = *rng.pick(&[1usize, 2, 3, 4, 6, 7, 8, 10]);
+            let mut s = String::new();
+            for (i, c) in raw.chars().enumerate() {
+                if i > 0 && i % k == 0 {
+                    s.push('-');
+                }
+                s.push(c);
+            }
+            check_text(ctx, &s, "dash:regrouped");
+        }
+        8 => {
+            // every prefix and every suffix
+            let cs: Vec<char> = t.chars().collect();
+            for i in 0..cs.len() {
+                let p: String = cs[..i].iter().collect();
+                check_text(ctx, &p, "truncate:prefix");
+                let q: String = cs[cs.len() - i..].iter().collect();
+                check_text(ctx, &q, "truncate:suffix");
+            }
+        }
+        9 => {
+            // wrong checksum with perfect grouping: crc of other data / off by one bit / zero
+            let crc = match rng.below(4) {
+                0 => crc32(&b) ^ (1 << rng.below(32)),
+                1 => 0,
+                2 => crc32(&b).swap_bytes(),
+                _ => rng.next() as u32,
+            };
+            check_text(ctx, &text_of(&b, crc), if crc == crc32(&b) { "identity" } else { "checksum:wrong" });
+        }
+        10 => {
+            // 30..40 (and longer) payload bytes with a correct checksum
+            let n = if rng.chance(1, 4) { rng.range(41, 200) } else { rng.range(30, 40) } as usize;
+            let big = rng.bytes(n);
+            let s = text_of(&big, crc32(&big));
+            check_text(ctx, &s, "overlong-payload");
+            check_text(ctx, &s.to_ascii_uppercase(), "overlong-payload");
+            check_overlong_bytes(ctx, &big);
+        }
+        11 => {
+            let s = match rng.below(8) {
+                0 => String::new(),
+                1 => "-".to_string(),
+                2 => "-".repeat(1 + rng.usize(12)),
+                3 => " ".to_string(),
+                4 => "aaaaa-aa ".to_string(),
+                5 => " aaaaa-aa".to_string(),
+                6 => "aaaaa-aa\n".to_string(),
+                _ => "aaaaa-a".to_string(),
+            };
+            check_text(ctx, &s, "degenerate");
+        }
+        12 => {
+            // fewer than 4 bytes of payload+crc: 1..6 alphabet characters
+            let n = 1 + rng.usize(7);
+            let s: String = (0..n).map(|_| *rng.pick(&EDIT_CHARS[..32])).collect();
+            check_text(ctx, &insert_dashes(&s), "short");
+        }
+        13 => {
+            // non-zero trailing bits: change the last character to one with the same leading bits
+            let cs: Vec<char> = raw.chars().collect();
+            let nbits = (4 + b.len()) * 8;
+            let used = nbits % 5; // bits of the last character that carry data (0 = all five)
+            if used != 0 {
+                let alphabet = &EDIT_CHARS[..32];
+                let last = alphabet.iter().position(|c| *c == *cs.last().unwrap()).unwrap();
+                let junk = 1 + rng.usize((1usize << (5 - used)) - 1);
+                let v = last | junk;
+                let mut w = cs.clone();
+                *w.last_mut().unwrap() = alphabet[v];
+                let s: String = w.into_iter().collect();
+                check_text(ctx, &insert_dashes(&s), "trailing-bits");
+            } else {
+                check_text(ctx, &t, "identity");
+            }
+        }
+        14 => {
+            // padding characters and an appended group
+            let s = match rng.below(3) {
+                0 => format!("{t}="),
+                1 => format!("{t}-aaaaa"),
+                _ => format!("{t}a"),
+            };
+            check_text(ctx, &s, "appended");
+        }
+        _ => {
+            // random strings over the alphabet with correct grouping
+            let n = rng.usize(64);
+            let s: String = (0..n).map(|_| *rng.pick(&EDIT_CHARS[..32])).collect();
+            check_text(ctx, &insert_dashes(&s), "random-alphabet");
+        }
+    }
+    ctx.sample(|| json!({"bytes": hex(&b), "text": t}));
+}
+
+fn serde_family(ctx: &mut Ctx, rng: &mut Rng) {
+    let b = gen_bytes(rng, 29);
+    let input = || json!({"bytes": hex(&b)});
+    let Ok(p) = Principal::try_from_slice(&b) else {
+        return; // reported by the bytes family
+    };
+    let text = principal_text(&b);
+    // human readable: the text form
+    match catch(|| serde_json::to_string(&p)) {
+        Ok(Ok(s)) => {
+            if s != format!("\"{text}\"") {
+                ctx.violation(
+                    "serde-json|serialize-mismatch",
+                    &format!("serde_json gives {s}, reference text {text:?}"),
+                    input(),
+                );
+            }
+            match catch(|| serde_json::from_str::<Principal>(&s)) {
+                Ok(Ok(q)) if q == p => ctx.count("agree:json-roundtrip"),
+                Ok(r) => ctx.violation(
+                    "serde-json|roundtrip",
+                    &format!("{s} deserialises to {r:?}"),
+                    input(),
+                ),
+                Err(pi) => ctx.violation(&format!("panic|serde-json|{}", pi.sig()), &pi.message, input()),
+            }
+        }
+        Ok(Err(e)) => ctx.violation("serde-json|serialize-error", &e.to_string(), input()),
+        Err(pi) => ctx.violation(&format!("panic|serde-json|{}", pi.sig()), &pi.message, input()),
+    }
+    // a JSON string with some other spelling: accepted iff the strict parser accepts
+    let (alt, class) = match rng.below(8) {
+        0 => (text.to_ascii_uppercase(), "upper"),
+        1 => (text.replace('-', ""), "no-dashes"),
+        2 => (format!("{text}-"), "trailing-dash"),
+        3 => (format!(" {text}"), "leading-space"),
+        4 => {
+            let mut v: Vec<char> = text.chars().collect();
+            let i = rng.usize(v.len());
+            v[i] = *rng.pick(EDIT_CHARS);
+            (v.into_iter().collect(), "substituted")
+        }
+        5 => {
+            let n = rng.range(30, 40) as usize;
+            let big = rng.bytes(n);
+            (text_of(&big, crc32(&big)), "overlong-payload")
+        }
+        6 => (String::new(), "empty"),
+        _ => (text_of(&b, crc32(&b) ^ 1), "checksum"),
+    };
+    let js = serde_json::to_string(&alt).unwrap();
+    let want = principal_parse_strict(&alt);
+    match catch(|| serde_json::from_str::<Principal>(&js)) {
+        Ok(Ok(q)) => match &want {
+            Some(w) if q.as_slice() == &w[..] => ctx.count("agree:json-alt-accepted"),
+            _ => ctx.violation(
+                &format!("serde-json|accepts-noncanonical|{class}"),
+                &format!("JSON {js} deserialises to {} but the strict parser gives {want:?}", hex(q.as_slice())),
+                json!({"json": js}),
+            ),
+        },
+        Ok(Err(e)) => {
+            if let Some(w) = &want {
+                ctx.violation(
+                    &format!("serde-json|rejects-canonical|{class}"),
+                    &format!("JSON {js} is the text of {} up to case but is rejected: {e}", hex(w)),
+                    json!({"json": js}),
+                );
+            } else {
+                ctx.count("agree:json-alt-rejected");
+            }
+        }
+        Err(pi) => ctx.violation(&format!("panic|serde-json|{}", pi.sig()), &pi.message, json!({"json": js})),
+    }
+    // binary: the bytes
+    match catch(|| bincode::serialize(&p)) {
+        Ok(Ok(v)) => {
+            let mut expect = (b.len() as u64).to_le_bytes().to_vec();
+            expect.extend_from_slice(&b);
+            if v != expect {
+                ctx.violation(
+                    "serde-bincode|serialize-mismatch",
+                    &format!("bincode gives {}, expected length-prefixed bytes {}", hex(&v), hex(&expect)),
+                    input(),
+                );
+            }
+            match catch(|| bincode::deserialize::<Principal>(&v)) {
+                Ok(Ok(q)) if q == p => ctx.count("agree:bincode-roundtrip"),
+                Ok(r) => ctx.violation("serde-bincode|roundtrip", &format!("deserialises to {r:?}"), input()),
+                Err(pi) => ctx.violation(&format!("panic|serde-bincode|{}", pi.sig()), &pi.message, input()),
+            }
+        }
+        Ok(Err(e)) => ctx.violation("serde-bincode|serialize-error", &e.to_string(), input()),
+        Err(pi) => ctx.violation(&format!("panic|serde-bincode|{}", pi.sig()), &pi.message, input()),
+    }
+    match catch(|| serde_cbor::to_vec(&p)) {
+        Ok(Ok(v)) => {
+            let mut expect = cbor_bytes_header(b.len());
+            expect.extend_from_slice(&b);
+            if v != expect {
+                ctx.violation(
+                    "serde-cbor|serialize-mismatch",
+                    &format!("serde_cbor gives {}, expected byte string {}", hex(&v), hex(&expect)),
+                    input(),
+                );
+            }
+            match catch(|| serde_cbor::from_slice::<Principal>(&v)) {
+                Ok(Ok(q)) if q == p => ctx.count("agree:cbor-roundtrip"),
+                Ok(r) => ctx.violation("serde-cbor|roundtrip", &format!("deserialises to {r:?}"), input()),
+                Err(pi) => ctx.violation(&format!("panic|serde-cbor|{}", pi.sig()), &pi.message, input()),
+            }
+        }
+        Ok(Err(e)) => ctx.violation("serde-cbor|serialize-error", &e.to_string(), input()),
+        Err(pi) => ctx.violation(&format!("panic|serde-cbor|{}", pi.sig()), &pi.message, input()),
+    }
+    // over-long byte strings through the binary deserialisers
+    let n = if rng.chance(1, 4) { rng.range(41, 300) } else { rng.range(30, 40) } as usize;
+    let big = rng.bytes(n);
+    let mut bc = (n as u64).to_le_bytes().to_vec();
+    bc.extend_from_slice(&big);
+    match catch(|| bincode::deserialize::<Principal>(&bc)) {
+        Ok(Ok(q)) => ctx.violation(
+            "serde-bincode|accepts-overlong",
+            &format!("{n} bytes deserialise to {}", hex(q.as_slice())),
+            json!({"bincode": hex(&bc)}),
+        ),
+        Ok(Err(_)) => ctx.count("agree:bincode-overlong-rejected"),
+        Err(pi) => ctx.violation(&format!("panic|serde-bincode|{}", pi.sig()), &pi.message, json!({"bincode": hex(&bc)})),
+    }
+    let mut cb = cbor_bytes_header(n);
+    cb.extend_from_slice(&big);
+    match catch(|| serde_cbor::from_slice::<Principal>(&cb)) {
+        Ok(Ok(q)) => ctx.violation(
+            "serde-cbor|accepts-overlong",
+            &format!("{n} bytes deserialise to {}", hex(q.as_slice())),
+            json!({"cbor": hex(&cb)}),
+        ),
+        Ok(Err(_)) => ctx.count("agree:cbor-overlong-rejected"),
+        Err(pi) => ctx.violation(&format!("panic|serde-cbor|{}", pi.sig()), &pi.message, json!({"cbor": hex(&cb)})),
+    }
+    ctx.nontrivial(hash_bytes(&b) ^ hash_str(&alt));
+    ctx.sample(|| json!({"bytes": hex(&b), "json_alt": js}));
+}
+
+fn cbor_bytes_header(n: usize) -> Vec<u8> {
+    if n < 24 {
+        vec![0x40 | n as u8]
+    } else if n < 256 {
+        vec![0x58, n as u8]
+    } else {
+        vec![0x59, (n >> 8) as u8, n as u8]
+    }
+}
+
+fn wire_family(ctx: &mut Ctx, rng: &mut Rng) {
+    let n = match rng.below(8) {
+        0 => 29,
+        1 => 30,
+        2 => rng.range(31, 40) as usize,
+        3 => rng.range(41, 200) as usize,
+        _ => rng.usize(30),
+    };
+    let b = rng.bytes(n);
+    // "DIDL" 00 01 68 01 <leb len> <bytes>
+    let mut msg = b"DIDL\x00\x01\x68\x01".to_vec();
+    msg.extend(leb_u64(n as u64));
+    msg.extend_from_slice(&b);
+    let input = || json!({"message": hex(&msg), "principal_len": n});
+    let r1 = catch(|| IDLArgs::from_bytes(&msg));
+    let r2 = catch(|| Decode!(&msg, Principal));
+    match r1 {
+        Err(pi) => ctx.violation(&format!("panic|wire|from_bytes|{}", pi.sig()), &pi.message, input()),
+        Ok(Ok(args)) => {
+            let ok = n <= 29 && args.args.len() == 1 && matches!(&args.args[0], IDLValue::Principal(p) if p.as_slice() == &b[..]);
+            if n > 29 {
+                ctx.violation(
+                    "wire|accepts-overlong|IDLArgs::from_bytes",
+                    &format!("principal of {n} bytes decoded as {args}"),
+                    input(),
+                );
+            } else if !ok {
+                ctx.violation(
+                    "wire|value-mismatch|IDLArgs::from_bytes",
+                    &format!("decoded {args}, expected principal {}", principal_text(&b)),
+                    input(),
+                );
+            } else {
+                ctx.count("agree:wire-untyped");
+            }
+        }
+        Ok(Err(e)) => {
+            if n <= 29 {
+                ctx.violation(
+                    "wire|rejects-legal|IDLArgs::from_bytes",
+                    &format!("principal of {n} bytes rejected: {e}"),
+                    input(),
+                );
+            } else {
+                ctx.count("agree:wire-untyped-rejected");
+            }
+        }
+    }
+    match r2 {
+        Err(pi) => ctx.violation(&format!("panic|wire|Decode|{}", pi.sig()), &pi.message, input()),
+        Ok(Ok(p)) => {
+            if n > 29 {
+                ctx.violation(
+                    "wire|accepts-overlong|Decode!",
+                    &format!("principal of {n} bytes decoded as {}", hex(p.as_slice())),
+                    input(),
+                );
+            } else if p.as_slice() != &b[..] {
+                ctx.violation(
+                    "wire|value-mismatch|Decode!",
+                    &format!("decoded {}, expected {}", hex(p.as_slice()), hex(&b)),
+                    input(),
+                );
+            } else {
+                ctx.count("agree:wire-native");
+            }
+        }
+        Ok(Err(e)) => {
+            if n <= 29 {
+                ctx.violation(
+                    "wire|rejects-legal|Decode!",
+                    &format!("principal of {n} bytes rejected: {e}"),
+                    input(),
+                );
+            } else {
+                ctx.count("agree:wire-native-rejected");
+            }
+        }
+    }
+    // and the encoder produces exactly this message for a legal principal
+    if n <= 29 {
+        if let Ok(p) = Principal::try_from_slice(&b) {
+            match catch(|| Encode!(&p)) {
+                Ok(Ok(v)) if v == msg => ctx.count("agree:wire-encode"),
+                Ok(Ok(v)) => ctx.violation(
+                    "wire|encode-mismatch",
+                    &format!("Encode! gives {}, reference {}", hex(&v), hex(&msg)),
+                    input(),
+                ),
+                Ok(Err(e)) => ctx.violation("wire|encode-error", &e.to_string(), input()),
+                Err(pi) => ctx.violation(&format!("panic|wire|Encode|{}", pi.sig()), &pi.message, input()),
+            }
+        }
+    }
+    ctx.count(if n > 29 { "cover:wire:overlong" } else { "cover:wire:legal" });
+    ctx.nontrivial(hash_bytes(&msg));
+    ctx.sample(input);
+}
+
+pub fn run(ctx: &mut Ctx) {
+    ctx.max_violations = 80;
+    let mut done = 0u64;
+    ctx.cases("bytes", 0.2, |ctx, rng| bytes_family(ctx, rng, &mut done));
+    ctx.cases("single-character-edits", 0.35, edits_family);
+    ctx.cases("spellings", 0.25, spelling_family);
+    ctx.cases("serde", 0.1, serde_family);
+    ctx.cases("wire", 0.1, wire_family);
+}
